@@ -34,7 +34,7 @@ def single_family(case):
 def costs_of(case):
     out = {}
     for a in ALGOS:
-        r = run_algo(case, a, "any")
+        r = run_algo(case, a, "any", present="auto")
         if "err" in r:
             out[a] = {"err": r["err"]}
         else:
